@@ -1042,6 +1042,11 @@ func (e *CEnv) callExpr(x *CExpr) (Val, error) {
 		name, sort := c.elemHeap(tStr)
 		h := c.heapGet(e.st, name, sort)
 		return Val{T: tStr, Term: app("str_join", sel(h, app("sl_base", as[0].Term)), app("sl_off", as[0].Term), app("sl_len", as[0].Term), as[1].Term)}, nil
+	case "param":
+		// param(x): the parameter x (its entry value), even when a local variable of the same name shadows it
+		n := e.sub()
+		n.useLocals = false
+		return n.eval(x.Args[0])
 	case "final":
 		// final(e): e with parameter / local names denoting their current cells (a postcondition otherwise reads a
 		// parameter as its entry value)
